@@ -91,6 +91,9 @@ struct Out
     }
     void nontrivial(uint64_t key) { keys.push_back(key); }
     void label(const std::string& l) { labels.push_back(l); }
+    // observed/allowed ratios and similar: the evidence reports the maximum seen per name
+    std::vector<std::pair<std::string, double>> metrics;
+    void metric(const std::string& name, double v) { metrics.emplace_back(name, v); }
 };
 
 struct Failure
@@ -109,6 +112,7 @@ struct SubStats
     long cases{0};
     std::unordered_set<uint64_t> keys;
     std::map<std::string, long> hist;
+    std::map<std::string, double> metrics;   // max per name
     std::vector<Json> samples;
     std::vector<Failure> fails;   // at most one per signature (the smallest seen / the shrunk one)
     std::vector<std::string> notes;
@@ -156,7 +160,7 @@ struct Ctx
         return mix(mix(mix(seed, hash_str(property + "/" + sub->name)), hash_str(tag)), uint64_t(shard));
     }
     // enumeration sharding: every enumerated case gets the next index, a shard runs the indices it owns
-    bool mine() { return (enum_index++ % nshards) == shard; }
+    bool mine() { return int(mix(uint64_t(enum_index++), 0x5EED) % uint64_t(nshards)) == shard; }
     bool mine(uint64_t idx) const { return int(idx % uint64_t(nshards)) == shard; }
     void note(const std::string& n) { st->notes.push_back(n); }
 
@@ -182,6 +186,11 @@ struct Ctx
         bool fresh = false;
         for (uint64_t k : o.keys) fresh |= st->keys.insert(k).second;
         for (auto& l : o.labels) st->hist[l]++;
+        for (auto& m : o.metrics) {
+            auto it = st->metrics.find(m.first);
+            if (it == st->metrics.end()) st->metrics[m.first] = m.second;
+            else if (m.second > it->second) it->second = m.second;
+        }
         if (!o.keys.empty() && fresh && st->samples.size() < 4 && (st->samples.empty() || (st->cases % 7) == 0 || st->cases < 4)) {
             st->samples.push_back(c);
         }
@@ -381,6 +390,9 @@ inline std::string pack_out(const Out& o) {
     Json k = Json::array();
     for (auto x : o.keys) k.push(Json(fmt("%llu", (unsigned long long)x)));
     j.set("keys", k).set("labels", Json(o.labels)).set("extra", o.extra);
+    Json mt = Json::array();
+    for (auto& m : o.metrics) mt.push(Json::array().push(Json(m.first)).push(Json(m.second)));
+    j.set("metrics", mt);
     return j.dump();
 }
 inline void unpack_out(const std::string& s, Out& o) {
@@ -393,6 +405,7 @@ inline void unpack_out(const std::string& s, Out& o) {
     for (auto& x : j.at("keys").a) o.keys.push_back(x.u64());
     for (auto& x : j.at("labels").a) o.labels.push_back(x.str());
     o.extra = j.at("extra");
+    if (j.has("metrics")) for (auto& m : j.at("metrics").a) o.metrics.emplace_back(m.at(0).str(), m.at(1).num());
 }
 
 // Executes body(out) in a forked child under the monitor.  Normal return (incl. failures the body itself recorded)
@@ -448,6 +461,9 @@ inline Json stats_json(const SubStats& s) {
     Json h = Json::object();
     for (auto& kv : s.hist) h.set(kv.first, kv.second);
     j.set("hist", h);
+    Json mt = Json::object();
+    for (auto& kv : s.metrics) mt.set(kv.first, kv.second);
+    j.set("metrics", mt);
     j.set("samples", Json(s.samples));
     Json fl = Json::array();
     for (auto& f : s.fails) {
@@ -558,6 +574,7 @@ inline int harness_main(const char* property, int argc, char** argv) {
             printf("%-28s evals=%ld cases=%ld nontrivial=%zu discards=%ld failures=%ld wall=%.1fs\n", kv.first.c_str(), kv.second.evaluations,
                    kv.second.cases, kv.second.keys.size(), kv.second.discards, kv.second.failures, kv.second.wall);
             for (auto& h : kv.second.hist) printf("      %-40s %ld\n", h.first.c_str(), h.second);
+            for (auto& h : kv.second.metrics) printf("      max %-36s %.4g\n", h.first.c_str(), h.second);
             for (auto& n : kv.second.notes) printf("      note: %s\n", n.c_str());
             for (auto& f : kv.second.fails) printf("      FAIL sig=%s%s :: %s\n           case=%s\n", f.sig.c_str(), f.shrunk ? " (shrunk)" : "", f.msg.c_str(), f.c.dump().c_str());
         }
